@@ -133,7 +133,7 @@ class Evaluator(object):
             return self.ref(e["field_reference"]["path"])
         if "function" in e:
             f = e["function"]
-            name = f["function_name"]["text"]
+            name = _fn_name(f)
             args = f.get("args", [])
             if name == "?:":
                 return self.ev(args[1]) if self.ev(args[0]) else self.ev(args[2])
@@ -220,7 +220,7 @@ def leaves_of(idx, e, out, prefix=(), depth=0):
         if kind == "field" and "read_transform" in obj[1]:
             leaves_of(idx, obj[1]["read_transform"], out, (), depth + 1)
     elif "function" in e:
-        name = e["function"]["function_name"]["text"]
+        name = _fn_name(e["function"])
         if name == "$present":
             return
         for a in e["function"].get("args", []):
@@ -263,6 +263,19 @@ def value_choices(rng, r):
     lo, hi = r
     cs = {lo, hi, max(lo, min(hi, 0)), max(lo, min(hi, 1)), max(lo, min(hi, -1)), rng.randint(lo, hi), rng.randint(lo, hi)}
     return sorted(cs)
+
+
+_FN_BY_ENUM = {"ADDITION": "+", "SUBTRACTION": "-", "MULTIPLICATION": "*", "EQUALITY": "==", "INEQUALITY": "!=", "AND": "&&",
+               "OR": "||", "LESS": "<", "LESS_OR_EQUAL": "<=", "GREATER": ">", "GREATER_OR_EQUAL": ">=", "CHOICE": "?:",
+               "MAXIMUM": "$max", "PRESENCE": "$present", "UPPER_BOUND": "$upper_bound", "LOWER_BOUND": "$lower_bound"}
+
+
+def _fn_name(f):
+    """Operator spelling of a function node; synthesized nodes carry only the enum."""
+    n = f.get("function_name", {}).get("text")
+    if n:
+        return n
+    return _FN_BY_ENUM.get(str(f.get("function", "")).split(".")[-1], "?")
 
 
 def parse_bound(s):
@@ -432,16 +445,16 @@ def check_ir(ir, rng, text_for_report=""):
                     render(e), ann["minimum_value"], ann["maximum_value"], min(seen_vals), max(seen_vals))))
     # $upper_bound / $lower_bound nodes: bounds of their argument
     for e in exprs:
-        if "function" in e and e["function"]["function_name"]["text"] in ("$upper_bound", "$lower_bound"):
+        if "function" in e and _fn_name(e["function"]) in ("$upper_bound", "$lower_bound"):
             arg = e["function"]["args"][0]
             ai = arg.get("type", {}).get("integer", {})
             ei = e.get("type", {}).get("integer", {})
             if "modular_value" in ei and ei.get("modulus") == "infinity":
-                which = "maximum_value" if e["function"]["function_name"]["text"] == "$upper_bound" else "minimum_value"
+                which = "maximum_value" if _fn_name(e["function"]) == "$upper_bound" else "minimum_value"
                 _st("bound_functions_checked")
                 if ai.get(which) != ei.get("modular_value"):
                     viol.append(("bound-function", "%s(%s) = %s but the argument's inferred %s is %s" % (
-                        e["function"]["function_name"]["text"], render(arg), ei.get("modular_value"), which, ai.get(which))))
+                        _fn_name(e["function"]), render(arg), ei.get("modular_value"), which, ai.get(which))))
     return viol
 
 
@@ -461,7 +474,7 @@ def tight_class(e, idx):
         return kind in ("field", "param") and "read_transform" not in obj[1] and len(e["field_reference"]["path"]) == 1 and \
             isinstance(physical_range(idx, obj[0], obj[1], kind), tuple) and physical_range(idx, obj[0], obj[1], kind)[0] != "enum"
     if "function" in e:
-        return e["function"]["function_name"]["text"] in ("+", "-", "*", "$max") and all(tight_class(a, idx) for a in e["function"]["args"])
+        return _fn_name(e["function"]) in ("+", "-", "*", "$max") and all(tight_class(a, idx) for a in e["function"]["args"])
     return False
 
 
@@ -478,7 +491,7 @@ def render(e):
     if "builtin_reference" in e:
         return e["builtin_reference"]["canonical_name"]["object_path"][-1]
     if "function" in e:
-        n = e["function"]["function_name"]["text"]
+        n = _fn_name(e["function"])
         a = [render(x) for x in e["function"].get("args", [])]
         if n == "?:":
             return "(%s ? %s : %s)" % tuple(a)
@@ -537,6 +550,15 @@ def expr_module(rng):
             lines.append("  %d [+%d]  Bcd  b%d" % (off, nb, i))
             names.append("b%d" % i)
         off += nb
+    twins = []
+    if rng.random() < 0.6:
+        # two fields of one structure type: members with the same name but different paths (a.x vs b.x)
+        lines.insert(1, "struct Pair:\n  0 [+1]  Int  x\n  1 [+1]  UInt  y\n  2 [+2]  Int  z\n  let w = x - 3")
+        lines.append("  %d [+4]  Pair  pa" % off)
+        lines.append("  %d [+4]  Pair  pb" % (off + 4))
+        off += 8
+        twins = ["pa.x", "pb.x", "pa.y", "pb.y", "pa.z", "pb.z", "pa.w", "pb.w"]
+        names += twins
     lines.append("  %d [+1]  bits:" % off)
     lines.append("    0 [+1]  Flag  fl")
     lines.append("    1 [+3]  UInt  t3")
@@ -556,6 +578,9 @@ def expr_module(rng):
         if r < 0.65:
             return "(%s - %s)" % (a, b)
         if r < 0.78:
+            if twins and rng.random() < 0.4:
+                m = rng.choice("xyzw")
+                return "(pa.%s * p%s.%s)" % (m, rng.choice("ab"), m)  # same member of two fields, or a true square
             return "(%s * %s)" % (rng.choice(small), rng.choice(consts[:9] + small))
         if r < 0.88:
             return "$max(%s, %s)" % (a, b)
